@@ -4955,6 +4955,10 @@ func (c *BytecodeCompiler) compileInnerMethodCall(receiver ast.ExpressionNode, n
 	case "--":
 		c.compileDecrement(receiverType, location)
 	default:
+		if tailCall && c.additionalAbortChecks {
+			// a tail call never comes back to the CHECK_ABORT in front of this function's RETURN
+			c.emit(location.StartPos.Line, bytecode.CHECK_ABORT)
+		}
 		c.compileCallMethod(
 			receiverType,
 			nameSym,
